@@ -56,6 +56,10 @@ def fold(node, env=None, ctors=()):
             t = ast.unparse(n)
             if t in env:
                 return env[t]
+            hook = env.get("$objcall")
+            if hook is not None and isinstance(n.value, ast.Call) and isinstance(n.value.func, ast.Name) and n.value.func.id in hook[0]:
+                inner = n.value
+                return hook[1](inner.func.id, [f(a) for a in inner.args], {k.arg: f(k.value) for k in inner.keywords if k.arg}, "@" + n.attr, [], {})
             if t.startswith("re.") and t[3:].isupper() and hasattr(_re, t[3:]):
                 return getattr(_re, t[3:])
             raise NotConst(t)
@@ -130,6 +134,17 @@ def fold(node, env=None, ctors=()):
                 raise NotConst(str(e))
         if isinstance(n, ast.Call):
             fn = ast.unparse(n.func)
+            cm = env.get("$calls")
+            if cm and fn in cm:
+                # a sibling helper the caller folds by re-entry (arguments are folded here, where comprehension variables are bound)
+                return cm[fn](*[f(a) for a in n.args], **{k.arg: f(k.value) for k in n.keywords if k.arg})
+            hook = env.get("$objcall")
+            if hook is not None and isinstance(n.func, ast.Attribute) and isinstance(n.func.value, ast.Call) and isinstance(n.func.value.func, ast.Name) \
+                    and n.func.value.func.id in hook[0]:
+                # <Class>(args).<method>(args) on a class the caller can fold: constructor and method are folded by the caller's hook
+                inner = n.func.value
+                return hook[1](inner.func.id, [f(a) for a in inner.args], {k.arg: f(k.value) for k in inner.keywords if k.arg},
+                               n.func.attr, [f(a) for a in n.args], {k.arg: f(k.value) for k in n.keywords if k.arg})
             if fn in ctors:
                 return Struct(fn, [f(a) for a in n.args], {k.arg: f(k.value) for k in n.keywords if k.arg}, n)
             if fn == "re.compile" and not n.keywords:
@@ -282,21 +297,11 @@ def fold_body(stmts, env, ctors=(), calls=None, max_steps=20000, final=None):
     over a constant environment; returns the returned value, raises Raised(name) when the code raises, NotConst otherwise.
     `calls`: optional {call text: python callable} for sibling helpers."""
     env = dict(env)
+    if calls:
+        env["$calls"] = calls
     steps = [0]
 
     def ffold(n):
-        if calls:
-            class R(ast.NodeTransformer):
-                def visit_Call(self, node):
-                    self.generic_visit(node)
-                    fn = ast.unparse(node.func)
-                    if fn in calls:
-                        kw = {k.arg: fold(k.value, env, ctors) for k in node.keywords if k.arg}
-                        return ast.copy_location(ast.Constant(calls[fn](*[fold(a, env, ctors) for a in node.args], **kw)), node)
-                    return node
-            if any(isinstance(x, ast.Call) and ast.unparse(x.func) in calls for x in ast.walk(n)):
-                import copy
-                n = R().visit(copy.deepcopy(n))
         return fold(n, env, ctors)
 
     def assign(t, v):
@@ -334,6 +339,9 @@ def fold_body(stmts, env, ctors=(), calls=None, max_steps=20000, final=None):
                     continue
                 if isinstance(st.value, ast.Call) and ast.unparse(st.value.func) in ("print", "logging.debug", "logging.info"):
                     continue
+                if calls and isinstance(st.value, ast.Call) and ast.unparse(st.value.func) in calls:
+                    ffold(st.value)
+                    continue
                 raise NotConst("expression statement " + ast.unparse(st)[:40])
             if isinstance(st, ast.Assign):
                 v = ffold(st.value)
@@ -360,6 +368,21 @@ def fold_body(stmts, env, ctors=(), calls=None, max_steps=20000, final=None):
                 broke = False
                 for x in seq:
                     assign(st.target, x)
+                    try:
+                        run(st.body)
+                    except _Break:
+                        broke = True
+                        break
+                    except _Continue:
+                        continue
+                if not broke:
+                    run(st.orelse)
+            elif isinstance(st, ast.While):
+                broke = False
+                while ffold(st.test):
+                    steps[0] += 1
+                    if steps[0] > max_steps:
+                        raise NotConst("step limit")
                     try:
                         run(st.body)
                     except _Break:
